@@ -62,6 +62,18 @@ def run(ctx: Ctx, driver: Driver):
         salt = rng.choice([rb(16), bytes(16)])
         b = int.from_bytes(rb(32), "big")
         a_bytes = rb(16)
+        if kind == "honest-K0":
+            # an honest session whose SRP session key K = H(S) starts with a zero byte (1 in 256): every place that takes a
+            # detour through an integer loses that byte
+            from harness.c02 import mk_client as _mk
+            A_b0 = bytes(_mk(pin, a_bytes, salt, refacc.PAD(refacc.SrpServer(pin, salt, b).B)).get_public_key_bytes())
+            for _ in range(3000):
+                cand = refacc.SrpServer(pin, salt, b)
+                cand.on_A(A_b0)
+                if cand.K[0] == 0:
+                    break
+                b = int.from_bytes(rb(32), "big")
+            ctx.dist["K-leading-zero-found"] += int(cand.K[0] == 0)
         ltsk_seed = rb(32)
         acc = refacc.Identity(rb, acc_id=rng.choice([b"12:34:56:00:01:0A", b"AA:BB:CC:DD:EE:FF", b"3c:5a:b4:00:1f:e2", b"aB:cd:EF:01:23:45"]))
         srv = refacc.SrpServer(pin if kind != "wrong-code-accessory" else "999-99-999", salt, b)
@@ -93,6 +105,12 @@ def run(ctx: Ctx, driver: Driver):
                 legit4 = False
             elif kind == "m4-zero-prepended":
                 m4 = [(6, b"\x04"), (4, b"\0" + srv.M2)]
+            elif kind == "m4-proof-suffix":
+                m4 = [(6, b"\x04"), (4, srv.M2[-rng.choice([63, 32, 8, 1]):])]
+                legit4 = False
+            elif kind == "m4-proof-prefix":
+                m4 = [(6, b"\x04"), (4, srv.M2[:rng.choice([63, 32, 8, 1])])]
+                legit4 = False
             # the client's own view of K and of the expected proof, for the model (computed from the reference server: equal by C02 when the code is right)
             try:
                 req5 = g.send(L(m4))
@@ -202,10 +220,12 @@ def run(ctx: Ctx, driver: Driver):
         lines.append(f"ps.part2 {hx(view['K'])} {hx(view['M2'])} {hx(ios_id.encode())} {hx(ltsk_seed)} {toks(m4)} | {toks(m6)}")
         return out, rec
 
-    kinds = ["honest"] * 4 + ["wrong-code-accessory", "m4-bitflip", "m4-error", "m4-state", "m4-no-proof", "m4-zero-prepended", "m6-other-signkey", "m6-other-enckey", "m6-sig-other-id",
+    kinds = ["honest"] * 4 + ["wrong-code-accessory", "m4-bitflip", "m4-error", "m4-state", "m4-no-proof", "m4-zero-prepended", "m4-proof-suffix", "m4-proof-prefix", "m6-other-signkey", "m6-other-enckey", "m6-sig-other-id",
                               "m6-sig-other-key", "m6-drop-sig", "m6-drop-id", "m6-drop-key", "m6-short-key", "m6-other-K", "m6-bitflip", "m6-trunc", "m6-error", "m6-state", "m6-no-enc"]
     for i in range(ctx.budget(72, 2400)):
         exchange(kinds[i % len(kinds)])
+    for _ in range(ctx.budget(1, 12)):
+        exchange("honest-K0")
     ctx.sample({k: (v if len(str(v)) < 300 else str(v)[:300] + "...") for k, v in cases[0].items()})
     # wrong-code accessory: the model is given the reference server's K/M2 which the real client does not share - the outcome (AuthenticationError at M4) must still agree
     compare_with_model(ctx, "setup", cases, outs, lines, driver, canon=canon_wrongcode)
